@@ -334,6 +334,7 @@ func c05Recount(c *Ctx, g *gameModel) {
 				// counter (i) or accumulator (ret)? the counter is compared with the limit
 				if info, ok := inductionVar(phi); ok && info.Cond != nil && stripConv(info.Bound) == ssa.Value(limitP) {
 					cp := info
+					normaliseExitTest(&cp)
 					iv = &cp
 					continue
 				}
@@ -365,7 +366,23 @@ func c05Recount(c *Ctx, g *gameModel) {
 			}
 			if phi, ok := stripConv(bo.X).(*ssa.Phi); ok && stripConv(bo.Y) == ssa.Value(limitP) {
 				if info, ok := inductionVar(phi); ok {
-					info.Cond, info.Op, info.Bound = bo, bo.Op, bo.Y
+					op := bo.Op
+					// the test may be written as the exit condition (if i > limit { break }): normalise to the
+					// condition under which the walk goes on
+					stays := func(sb *ssa.BasicBlock) bool { return reachableFrom(sb, map[*ssa.BasicBlock]bool{})[phi.Block()] }
+					if len(blk.Succs) == 2 && !stays(blk.Succs[0]) && stays(blk.Succs[1]) {
+						switch op {
+						case token.GTR:
+							op = token.LEQ
+						case token.GEQ:
+							op = token.LSS
+						case token.LSS:
+							op = token.GEQ
+						case token.LEQ:
+							op = token.GTR
+						}
+					}
+					info.Cond, info.Op, info.Bound = bo, op, bo.Y
 					cp := info
 					iv = &cp
 				}
@@ -779,4 +796,30 @@ func c05Dead(c *Ctx, g *gameModel) {
 func constNonDraw(out absint.Value, draw int64) bool {
 	v, ok := absint.ConstInt(out)
 	return ok && v != draw
+}
+
+// normaliseExitTest: when the counter's test is written as the exit condition (if i > limit { break }) - its true
+// edge leaves the loop and its false edge stays - turn the operator into the condition under which the loop goes on.
+func normaliseExitTest(iv *ivInfo) {
+	bo := iv.Cond
+	if bo == nil || bo.Block() == nil || iv.Phi == nil {
+		return
+	}
+	blk := bo.Block()
+	if _, isIf := blk.Instrs[len(blk.Instrs)-1].(*ssa.If); !isIf || len(blk.Succs) != 2 {
+		return
+	}
+	stays := func(sb *ssa.BasicBlock) bool { return reachableFrom(sb, map[*ssa.BasicBlock]bool{})[iv.Phi.Block()] }
+	if !stays(blk.Succs[0]) && stays(blk.Succs[1]) {
+		switch iv.Op {
+		case token.GTR:
+			iv.Op = token.LEQ
+		case token.GEQ:
+			iv.Op = token.LSS
+		case token.LSS:
+			iv.Op = token.GEQ
+		case token.LEQ:
+			iv.Op = token.GTR
+		}
+	}
 }
